@@ -118,6 +118,10 @@ def generate(mul, classes, prop, extra_classes):
     for c, p in extra_classes.items():
         L.append(f'Cls_{c} == {body(p)}')
         acts.append(f'Cls_{c}')
+    # a tilt-interface plane built with an explicit ptype (documented keyword) is a plane of that type: same table row
+    for p in ('pupil', 'image'):
+        L.append(f'Cls_TiltAs{p.capitalize()} == {body(p)}')
+        acts.append(f'Cls_TiltAs{p.capitalize()}')
     # the documentation names two far-field methods (propagate_dft, propagate_fft): one action each, same table
     for pa in ('Propagate', 'PropagateFFT'):
         L.append(pa + ' == IF PropTable[wf] = NA THEN UNCHANGED wf /\\ outcome\' = "TypeError"\n'
